@@ -651,10 +651,23 @@ func clientProgram(run *ev.Run, caseID string, r *rand.Rand, elected bool) {
 					problems = append(problems, fmt.Sprintf("await-error|before the second session: %v", err))
 				}
 				c.Stop(t)
+				modeNote := ""
+				if r.Intn(2) == 0 {
+					// the second session uses the other redundancy mode: what was set for the
+					// first one must not leak into it
+					elected = !elected
+					if elected {
+						conn.WithRedundancyMode(fluent.ElectedPrimaryClient).WithInitialElectionID(cur.Low, cur.High)
+						modeNote = fmt.Sprintf(", now as elected primary with initial id (%d,%d)", cur.Low, cur.High)
+					} else {
+						conn.WithRedundancyMode(fluent.AllPrimaryClients)
+						modeNote = ", now in all-primary mode (no election id on operations)"
+					}
+				}
 				c.Start(ctx, t)
 				c.StartSending(ctx, t)
 				held = nil // handles of the first session are not used on the second
-				trace = append(trace, "Await, Stop, Start, StartSending (second session of the same client)")
+				trace = append(trace, "Await, Stop, Start, StartSending (second session of the same client"+modeNote+")")
 			}
 			switch x := r.Intn(10); {
 			case x < 2 && elected:
@@ -694,11 +707,18 @@ func clientProgram(run *ev.Run, caseID string, r *rand.Rand, elected bool) {
 				trace = append(trace, "reused builder: "+b.calls[len(b.calls)-1])
 			default:
 				n := 1 + r.Intn(3)
+				large := r.Intn(14) == 0
+				if large {
+					n = 250 + r.Intn(80) // one call with hundreds of entries
+				}
 				var es []fluent.GRIBIEntry
 				var bs []*builder
 				for k := 0; k < n; k++ {
 					var b *builder
-					if len(pool) > 0 && r.Intn(3) == 0 {
+					if large {
+						b = newBuilder(kinds[r.Intn(5)])
+						b.step(r)
+					} else if len(pool) > 0 && r.Intn(3) == 0 {
 						b = pool[r.Intn(len(pool))]
 					} else {
 						b = newBuilder(kinds[r.Intn(5)])
